@@ -551,4 +551,69 @@ def runStart : List StStmt → EM Unit
   | .remember :: rest => runStart rest
   | .put :: rest => do enqueueActivation; runStart rest
 
+/-! ## `spec_parser.py`: the closures guard expressions are made of (shapes; their one-step meaning is in
+`SMV/Src/TieExpr.lean`, next to the expression model) -/
+
+/-- the `return` statement of an inner `decorated` closure -/
+inductive CombBody
+  /-- `return not predicate(*args, **kwargs)` -/
+  | notCall
+  /-- `return left(*args, **kwargs) and right(*args, **kwargs)` -/
+  | andCalls
+  /-- `return left(*args, **kwargs) or right(*args, **kwargs)` -/
+  | orCalls
+  /-- `return constant` -/
+  | constant
+  /-- `return bool(operator(left(*args, **kwargs), right(*args, **kwargs)))` -/
+  | boolOfOp
+deriving DecidableEq, Repr
+
+/-- one branch of the `isinstance` chain of `build_expression`, in source order -/
+inductive BBranch
+  /-- `ast.BoolOp`: `operator_fn = operator_mapping[type(node.op)]`, the values folded from the left -/
+  | boolOpFoldLeft
+  /-- `ast.Compare`: one link per operator, `left_expr = right_expr` carried to the next link, the links combined by
+  `reduce(custom_and, expressions)` -/
+  | compareLinksAnd
+  /-- `ast.UnaryOp` with `ast.Not`: `operator_mapping[type(node.op)](operand)` -/
+  | unaryNot
+  /-- `ast.Name`: `variable_hook(node.id)` -/
+  | name
+  /-- `ast.Constant`: `build_constant(node.value)` -/
+  | constant
+  /-- the Python 3.7 spellings of constants (`NameConstant`, `Str`, `Num`) -/
+  | legacyConstant
+  /-- `else: raise ValueError("Unsupported expression structure …")` -/
+  | unsupported
+deriving DecidableEq, Repr
+
+/-- one statement of `parse_boolean_expr` -/
+inductive QStmt
+  /-- `if expr.strip() == "": raise SyntaxError("Empty expression")` -/
+  | rejectBlank
+  /-- `if expr.isidentifier() and not iskeyword(expr): return variable_hook(expr)` -/
+  | fastPathName
+  /-- `expr = replace_operators(expr)` -/
+  | replaceOperators
+  /-- `tree = ast.parse(expr, mode="eval")` -/
+  | parseEval
+  /-- `return build_expression(tree.body, variable_hook, operator_mapping)` -/
+  | build
+deriving DecidableEq, Repr
+
+structure ParserScript where
+  notB : CombBody
+  andB : CombBody
+  orB : CombBody
+  constB : CombBody
+  cmpB : CombBody
+  branches : List BBranch
+  /-- `operator_mapping`: AST operator class ↦ what builds its closure -/
+  mapping : List (String × String)
+  parse : List QStmt
+  /-- `replacements` of `replace_operators`, sorted by key -/
+  replacements : List (String × String)
+deriving DecidableEq, Repr
+
 end SMV.Src
+
